@@ -7,7 +7,7 @@ ID = "C02"
 THEOREMS = ["select_identity_sem", "makeSelect_sem", "makeArgsUnique_counter", "freshNames_mem", "lambdaIsIdentity_sound",
             "rule_select_select", "rule_selectMany_select", "rule_where_select", "rule_where_where", "rule_select_selectMany",
             "rule_where_selectMany", "rule_selectMany_selectMany", "rule_first_attr", "rule_first_sub", "rule_tuple_index", "rule_list_index",
-            "denLz_coincide", "sel_sel", "whr_whr", "whr_sel", "many_sel", "sel_many", "whr_many", "many_many", "first_sel"]
+            "denLz_coincide", "denLz_mono", "denLz_wf", "denLz_noPoison", "sel_sel", "whr_whr", "whr_sel", "many_sel", "sel_many", "whr_many", "many_many", "first_sel"]
 RULE = (
     "seeded sort-directed closed queries over Select/Where/SelectMany/First/Count/len/Sum/Max/Min in function form (half "
     "of them converted from method form by the shipped pass), nested lambdas, called lambdas with positional and keyword "
